@@ -125,6 +125,8 @@ def enumerate_paths(run, max_paths=20000, max_seconds=60.0):
             return {"dist": dist, "complete": False, "paths": paths, "errors": errors, "abort": repr(e), "total": total,
                     "choices": ch.n_choices}
         except Exception as e:       # the library raised on this path: an outcome of its own
+            if type(e).__name__ == "CaseTimeout":
+                raise
             out = ("raised", type(e).__name__)
             errors[type(e).__name__] = errors.get(type(e).__name__, 0) + 1
         dist[out] = dist.get(out, Fraction(0)) + ch.prob
